@@ -6,7 +6,7 @@ cd /verif
 # SKIP=<egrep pattern>: ids (seeded and benign) to leave out
 for d in seeded/*/; do
   id=$(basename $d)
-  if [ -n "${SKIP:-}" ] && echo "$id" | grep -Eq "$SKIP"; then continue; fi
+  if [ -n "${SKIP:-}" ] && echo "$id" | grep -Eq -- "$SKIP"; then continue; fi
   p=$(python3 -c "import json;print(json.load(open('$d/meta.json'))['property'])")
   extra=$(python3 -c "
 import json
@@ -20,7 +20,7 @@ print(' '.join(k for k in m.get('detected_by',{}) if k!=m['property']))")
 done
 for d in benign/*/; do
   k=$(basename $d)
-  if [ -n "${SKIP:-}" ] && echo "$k" | grep -Eq "$SKIP"; then continue; fi
+  if [ -n "${SKIP:-}" ] && echo "$k" | grep -Eq -- "$SKIP"; then continue; fi
   for p in C04 C05 C09 C12 C14 C15; do
     r=$(tools/try_patch.sh $d/patch.diff $p --tier quick 2>&1 | grep -E "^TRY|^violation class" | cut -c1-160 | tr '\n' ' ')
     echo "BENIGN $k $p: $r"
